@@ -479,3 +479,37 @@ pub fn run_sessions(sessions: &[J], out: &mut dyn Write, scratch: &Path) -> J {
     }
     json!({"sessions": sessions.len(), "cases": n_cases, "errors": n_err, "rows": n_rows})
 }
+
+
+/// C27: encode_ordered_value of lists of real values.  Input lines: {"id", "vals": [param syntax | {"blob":[bytes]}]}.
+pub fn run_keys(inputs: &[J], out: &mut dyn Write) -> J {
+    use nervusdb_api::PropertyValue as PV;
+    let mut n = 0u64;
+    for inp in inputs {
+        let mut vals = Vec::new();
+        let mut encs = Vec::new();
+        for v in inp["vals"].as_array().cloned().unwrap_or_default() {
+            let (pv, t) = if let Some(b) = v.get("blob") {
+                let bytes: Vec<u8> = b.as_array().unwrap().iter().map(|x| x.as_u64().unwrap() as u8).collect();
+                (PV::Blob(bytes.clone()), json!(["blob", bytes]))
+            } else {
+                let val = value_from_param(&v);
+                let pv = match &val {
+                    Value::Null => PV::Null,
+                    Value::Bool(b) => PV::Bool(*b),
+                    Value::Int(i) => PV::Int(*i),
+                    Value::Float(f) => PV::Float(*f),
+                    Value::String(s) => PV::String(s.clone()),
+                    other => panic!("keys: unsupported value {other:?}"),
+                };
+                (pv, tv(&val).0)
+            };
+            let enc = nervusdb_storage::index::ordered_key::encode_ordered_value(&pv);
+            vals.push(t);
+            encs.push(json!(enc));
+            n += 1;
+        }
+        writeln!(out, "{}", json!({"ev": "keys", "id": inp["id"], "vals": vals, "enc": encs})).unwrap();
+    }
+    json!({"lists": inputs.len(), "values": n})
+}
